@@ -87,10 +87,29 @@ structure SameView (extra : List (List String)) (kvs kvs' : Kvs) : Prop where
   fields : ∀ f, f ∈ [["metadata", "labels"], ["metadata", "annotations"]] ++ extra →
     resolveE (.obj kvs) f = resolveE (.obj kvs') f
   drs : isDRS (.obj kvs) = isDRS (.obj kvs')
+  kind : lookup "kind" kvs = lookup "kind" kvs'
+  owners : ownerRefs (.obj kvs) = ownerRefs (.obj kvs')
+
+theorem pseudoBody_congr {kvs kvs' : Kvs} (hk : lookup "kind" kvs = lookup "kind" kvs')
+    (ho : ownerRefs (.obj kvs) = ownerRefs (.obj kvs')) (e : J) :
+    pseudoBody (.obj kvs) e = pseudoBody (.obj kvs') e := by
+  cases e with
+  | obj l => simp only [pseudoBody, withOwners, withKind, get?, hk, ho]
+  | _ => rfl
+
+theorem multiBuild_congr {kvs kvs' : Kvs} (hs : Hashes) (extra : List (List String))
+    (hk : lookup "kind" kvs = lookup "kind" kvs') (ho : ownerRefs (.obj kvs) = ownerRefs (.obj kvs')) :
+    ∀ (ls : List DiffBaseLeaf) (e : J), multiBuild hs extra (.obj kvs) e ls = multiBuild hs extra (.obj kvs') e ls
+  | [], _ => rfl
+  | l :: ls, e => by
+    simp only [multiBuild, pseudoBody_congr hk ho e]
+    cases leafBuild hs extra (pseudoBody (.obj kvs') e) l with
+    | error er => rfl
+    | ok e' => simp only [bind, Except.bind]; exact multiBuild_congr hs extra hk ho ls e'
 
 theorem baseBuild_congr {extra : List (List String)} {kvs kvs' : Kvs} (ig : List (List String))
     (h : SameView extra kvs kvs') : baseBuild ig extra (.obj kvs) = baseBuild ig extra (.obj kvs') := by
-  obtain ⟨hp, hf, _⟩ := h
+  obtain ⟨hp, hf, _, _, _⟩ := h
   have h1 : ∀ dst, cherrypick (.obj kvs) dst [["metadata", "labels"], ["metadata", "annotations"]] =
       cherrypick (.obj kvs') dst [["metadata", "labels"], ["metadata", "annotations"]] :=
     fun dst => cherrypick_congr _ _ _ dst (fun f hm => hf f (List.mem_append_left _ hm))
@@ -115,7 +134,7 @@ theorem essence_congr {extra : List (List String)} {kvs kvs' : Kvs} (cfg : Cfg)
   simp only [essence]
   cases hd : cfg.diffbase with
   | leaf l => simp only [diffbaseBuild, leafBuild_congr cfg.hashes l h]
-  | multi ls => simp only [diffbaseBuild, baseBuild_congr [] h]
+  | multi ls => simp only [diffbaseBuild, baseBuild_congr [] h, multiBuild_congr cfg.hashes extra h.kind h.owners]
 
 /-! ### writes outside the view -/
 
@@ -143,7 +162,9 @@ theorem erase4_insert_metadata (v : J) (kvs : Kvs) : erase4 (J.insert "metadata"
 
 theorem sameView_insert_status (kvs : Kvs) (v : J) (extra : List (List String)) (hx : ExtraAvoids "status" extra) :
     SameView extra (J.insert "status" v kvs) kvs := by
-  refine ⟨erase4_insert_status v kvs, ?_, ?_⟩
+  refine ⟨erase4_insert_status v kvs, ?_, ?_, lookup_insert_other v kvs (by decide), ?_⟩
+  rotate_left 2
+  · simp only [ownerRefs, get?, lookup_insert_other v kvs (by decide : "metadata" ≠ "status")]
   · intro f hf
     have : ∃ k ks, f = k :: ks ∧ k ≠ "status" := by
       rcases List.mem_append.1 hf with h | h
@@ -156,7 +177,9 @@ theorem sameView_insert_status (kvs : Kvs) (v : J) (extra : List (List String)) 
 
 theorem sameView_erase_status (kvs : Kvs) (extra : List (List String)) (hx : ExtraAvoids "status" extra) :
     SameView extra (erase "status" kvs) kvs := by
-  refine ⟨erase4_erase_status kvs, ?_, ?_⟩
+  refine ⟨erase4_erase_status kvs, ?_, ?_, lookup_erase_other kvs (by decide), ?_⟩
+  rotate_left 2
+  · simp only [ownerRefs, get?, lookup_erase_other kvs (by decide : "metadata" ≠ "status")]
   · intro f hf
     have : ∃ k ks, f = k :: ks ∧ k ≠ "status" := by
       rcases List.mem_append.1 hf with h | h
@@ -173,7 +196,9 @@ theorem sameView_metadata (kvs m m' : Kvs) (extra : List (List String))
     (hown : lookup "ownerReferences" m' = lookup "ownerReferences" m)
     (hx : ExtraMetaOK m m' extra) :
     SameView extra (J.insert "metadata" (.obj m') kvs) kvs := by
-  refine ⟨erase4_insert_metadata _ kvs, ?_, ?_⟩
+  refine ⟨erase4_insert_metadata _ kvs, ?_, ?_, lookup_insert_other _ kvs (by decide), ?_⟩
+  rotate_left 2
+  · simp only [ownerRefs, get?, lookup_insert_same, hm, hown]
   · intro f hf
     have : (∃ k ks, f = k :: ks ∧ k ≠ "metadata") ∨
         (∃ k2 ks, f = "metadata" :: k2 :: ks ∧ lookup k2 m' = lookup k2 m) := by
